@@ -1133,6 +1133,9 @@ pub fn run(cfg: &Cfg) -> Report {
   // ---------------------------------------------------------------- every operation on every representation of a value
   cohort_family(&mut rep, &mut model, &mut rng, cfg, thorough);
 
+  // ---------------------------------------------------------------- short coefficients at the two ends of the exponent range
+  clamp_family(&mut rep, &mut model, cfg, thorough);
+
   // ---------------------------------------------------------------- comparison
   let n_cmp = if thorough { 200_000 } else { 6_000 };
   let mut cmp_cases: Vec<(D, D)> = vec![];
@@ -1736,6 +1739,323 @@ fn near_square_family(rep: &mut Report, model: &mut Model, rng: &mut Rng, cfg: &
   }
   rep.extra.insert("nearsquare_operands".into(), json!(ops.len()));
   rep.extra.insert("nearsquare_judged_separately".into(), json!(jinfo.len()));
+}
+
+/// The written-out expectation for a value `(-1)^neg · c · 10^exp` (`c` of at most 34 digits) that decimal128 holds
+/// exactly or that lies beyond the largest number: above exponent 6111 the coefficient is padded with `exp − 6111`
+/// zeros (fold-down) as long as the padded coefficient has at most 34 digits (34 exactly: the format is filled, the
+/// adjusted exponent is 6144), one more is an overflow (half-even: Infinity); below −6176 only trailing zeros can be
+/// dropped. `None`: digits are lost (the specification decides, not this function).
+fn clamp_exact_expected(neg: bool, c: &str, exp: i32) -> Option<DecV> {
+  let mut c = c.to_string();
+  let mut exp = exp;
+  while exp < -6176 && c.len() > 1 && c.ends_with('0') {
+    c.pop();
+    exp += 1;
+  }
+  if exp < -6176 {
+    return None;
+  }
+  if exp > 6111 {
+    let pad = (exp - 6111) as usize;
+    if c.len() + pad <= 34 {
+      return Some(DecV::Fin(D::new(neg, &format!("{}{}", c, "0".repeat(pad)), 6111)));
+    }
+    return Some(DecV::Inf(neg));
+  }
+  Some(DecV::Fin(D::new(neg, &c, exp)))
+}
+
+/// `clamp`: results and literals at the two ends of the exponent range with a *short* coefficient. Top end
+/// (clamp range): every coefficient length 1 .. 34 x every exponent 6077 .. 6144, so that the coefficient has to be
+/// padded with 0 .. 33 zeros to bring the exponent down to 6111 (fold-down) — including the exact fit (length +
+/// padding = 34, adjusted exponent 6144) and one beyond (overflow). Bottom end (subnormal range): every length x
+/// every exponent −6210 .. −6143 (exact subnormals, and up to 34 digits to be rounded away). Each target value is
+/// produced (a) as a literal (`dec_from_string`, `FeelNumber::from_str`, a FEEL numeric literal written out with all
+/// its zeros), (b) as a product of two operands whose exponents add up to it (halves, one operand near 6000 / near
+/// zero / at the end of the range; the coefficient split into two factors or times a power of ten), (c) as an exact
+/// quotient (dividend = coefficient x divisor), at three layers (dec.rs, FeelNumber operator, FEEL text with bound
+/// operands). Oracle: `MulSpec` / `DivSpec` of the driver on every dec.rs answer (the literal `c·10^e` is judged as
+/// the product `c·10^e x 1`: the specification rounds the exact value once and does not need held operands), the
+/// other layers equal to the judged answer or judged by themselves (`judgev`), plus the written-out expectation
+/// (`clamp_exact_expected`) wherever the value is exactly representable or beyond the largest number.
+fn clamp_family(rep: &mut Report, model: &mut Model, cfg: &Cfg, thorough: bool) {
+  // its own stream: the generators of the other families see the same numbers as before
+  let mut rng = Rng::new(cfg.seed ^ 0xC02C_1A4D);
+  let rng = &mut rng;
+  struct T {
+    top: bool,
+    what: &'static str, // "literal" | "product" | "quotient"
+    neg: bool,
+    c: String,
+    exp: i32,
+    a: D,
+    b: D,
+  }
+  let split_exp = |rng: &mut Rng, exp: i32, sub: bool| -> (i32, i32) {
+    // e1 (+ or −) e2 = exp with both operands held exactly: −6176 <= e <= 6111
+    let fits = |e1: i32, e2: i32| (-6176..=6111).contains(&e1) && (-6176..=6111).contains(&e2);
+    for _ in 0..6 {
+      let e1 = match rng.below(5) {
+        0 => exp / 2 + rng.range(-3, 3) as i32,
+        1 => (if exp > 0 { 6000 } else { -6000 }) + rng.range(-120, 111) as i32,
+        2 => rng.range(-40, 40) as i32,
+        3 => if exp > 0 { 6111 } else { -6176 },
+        _ => rng.range(-6176, 6111) as i32,
+      };
+      let (e1, e2) = if sub {
+        (e1, e1 - exp)
+      } else if rng.chance(1, 2) {
+        (e1, exp - e1)
+      } else {
+        (exp - e1, e1)
+      };
+      if fits(e1, e2) {
+        return (e1, e2);
+      }
+    }
+    let h = exp / 2;
+    if sub {
+      (h, h - exp)
+    } else {
+      (h, exp - h)
+    }
+  };
+  let mut targets: Vec<T> = vec![];
+  let rounds = if thorough { 6 } else { 1 };
+  for round in 0..rounds {
+    for top in [true, false] {
+      let exps: Vec<i32> = if top { (6077..=6144).collect() } else { (-6210..=-6143).collect() };
+      for len in 1..=34usize {
+        for &exp in &exps {
+          let pad = exp - 6111;
+          // the exact fit and its two neighbours with both signs; the rest with one sign per round
+          let both = top && (33..=35).contains(&(len as i32 + pad));
+          let signs: Vec<bool> = if both || thorough && round == 0 { vec![false, true] } else { vec![rng.chance(1, 2)] };
+          for neg in signs {
+            // (a) literal
+            let c = if rng.chance(1, 6) { format!("{}{}", 1 + rng.below(9), "0".repeat(len - 1)) } else if rng.chance(1, 8) { nines(len) } else { digits(rng, len) };
+            targets.push(T { top, what: "literal", neg, c: c.clone(), exp, a: D::new(neg, &c, exp), b: D::new(false, "1", 0) });
+            // (b) product: c = c1 x c2 (or c x 1), e1 + e2 = exp
+            let (c1, c2) = {
+              let mut found: Option<(String, String)> = None;
+              if len >= 2 && !rng.chance(1, 3) {
+                for _ in 0..8 {
+                  let l1 = 1 + rng.below(len as u64 - 1) as usize;
+                  let x = digits(rng, l1);
+                  let l2 = (len - l1 + rng.below(2) as usize).max(1);
+                  let y = digits(rng, l2);
+                  let p = x.parse::<u128>().unwrap().checked_mul(y.parse::<u128>().unwrap());
+                  if p.map(|p| p.to_string().len() == len).unwrap_or(false) {
+                    found = Some((x, y));
+                    break;
+                  }
+                }
+              }
+              found.unwrap_or_else(|| (if rng.chance(1, 4) { format!("1{}", "0".repeat(len - 1)) } else { digits(rng, len) }, "1".to_string()))
+            };
+            let pc = (c1.parse::<u128>().unwrap() * c2.parse::<u128>().unwrap()).to_string();
+            let (e1, e2) = split_exp(rng, exp, false);
+            let nb = rng.chance(1, 2);
+            targets.push(T { top, what: "product", neg, c: pc, exp, a: D::new(neg != nb, &c1, e1), b: D::new(nb, &c2, e2) });
+            // (c) quotient: (c x d) / d, e1 − e2 = exp
+            let dl = if len >= 34 || rng.chance(1, 3) { 0 } else { 1 + rng.below((34 - len).min(12) as u64) as usize };
+            let d = if dl == 0 { "1".to_string() } else { digits(rng, dl) };
+            let q = digits(rng, len);
+            let dividend = (q.parse::<u128>().unwrap() * d.parse::<u128>().unwrap()).to_string();
+            if dividend.len() <= 34 {
+              let (e1, e2) = split_exp(rng, exp, true);
+              let nb = rng.chance(1, 2);
+              // the quotient of the coefficients is `q` with its trailing zeros kept or not (decNumber's choice of
+              // the exponent): the target value is q·10^exp either way
+              targets.push(T { top, what: "quotient", neg, c: q, exp, a: D::new(neg != nb, &dividend, e1), b: D::new(nb, &d, e2) });
+            }
+          }
+        }
+      }
+    }
+  }
+  let sig = |t: &T| -> String {
+    format!(
+      "{} in the {} is not the correctly rounded value",
+      match t.what {
+        "literal" => "a literal",
+        "product" => "a product",
+        _ => "a quotient",
+      },
+      if t.top { "clamp range (exponent above 6077 with a short coefficient: padded with zeros, exact fit, overflow)" } else { "subnormal range (exponent below -6143 with a short coefficient)" }
+    )
+  };
+  let op_of = |t: &T| -> &'static str { if t.what == "quotient" { "div" } else { "mul" } };
+  let spec_of = |t: &T| -> &'static str { if t.what == "quotient" { "the correctly rounded quotient (DivSpec)" } else { "the correctly rounded value (MulSpec)" } };
+  // ---- layer 1: dec.rs, every answer judged by the specification
+  let mut reqs: Vec<String> = vec![];
+  let mut raws: Vec<Option<DecV>> = vec![];
+  let mut inputs: Vec<String> = vec![];
+  for t in &targets {
+    let (input, raw) = match t.what {
+      "literal" => {
+        // the two spellings decQuadFromString is given: digits and exponent, or with a point after the first digit
+        let text = if t.c.len() > 1 && rng.chance(1, 2) {
+          format!("{}{}.{}E{:+}", if t.neg { "-" } else { "" }, &t.c[..1], &t.c[1..], t.exp + t.c.len() as i32 - 1)
+        } else {
+          t.a.to_sci_input()
+        };
+        let r = guarded(|| show_quad(&dec_from_string(&text)));
+        (format!("dec_from_string({})", text), r)
+      }
+      "product" => (format!("dec_multiply({}, {})", t.a.to_sci_input(), t.b.to_sci_input()), guarded(|| show_quad(&dec_multiply(&t.a.quad(), &t.b.quad())))),
+      _ => (format!("dec_divide({}, {})", t.a.to_sci_input(), t.b.to_sci_input()), guarded(|| show_quad(&dec_divide(&t.a.quad(), &t.b.quad())))),
+    };
+    match raw {
+      Ok(Some(v)) if v != DecV::NaN => {
+        reqs.push(format!("(c02 judge {} {} {} {})", op_of(t), t.a.wire(), t.b.wire(), v.wire()));
+        raws.push(Some(v));
+      }
+      Ok(other) => {
+        rep.disagree(Kind::ImplVsSpec, op_of(t), &sig(t), &input, &format!("{:?}", other), spec_of(t));
+        raws.push(None);
+      }
+      Err(p) => {
+        rep.disagree(Kind::ImplVsSpec, op_of(t), &format!("dec.rs {} panics", t.what), &input, &p, spec_of(t));
+        raws.push(None);
+      }
+    }
+    inputs.push(input);
+  }
+  let (answers, n_req) = ask_parallel(&cfg.driver, &reqs);
+  model.requests += n_req;
+  let mut raw_ok: Vec<bool> = vec![false; targets.len()];
+  {
+    let mut it = answers.iter();
+    for (i, t) in targets.iter().enumerate() {
+      if let Some(r) = &raws[i] {
+        let ans = it.next().map(|s| s.as_str()).unwrap_or("");
+        if ans.contains("true") {
+          raw_ok[i] = true;
+        } else if ans.contains("false") {
+          rep.disagree(Kind::ImplVsSpec, op_of(t), &sig(t), &inputs[i], &r.wire(), spec_of(t));
+        } else {
+          rep.disagree(Kind::ImplVsModel, op_of(t), "driver-error", &inputs[i], &r.wire(), ans);
+        }
+        // the written-out expectation, where there is one
+        if let Some(e) = clamp_exact_expected(t.neg, &t.c, t.exp) {
+          if r.reduced() != e.reduced() && raw_ok[i] {
+            // the specification accepted what the written-out expectation rejects: one of the two oracles is wrong
+            rep.disagree(Kind::ImplVsModel, op_of(t), "clamp: the specification and the written-out expectation disagree", &inputs[i], &r.wire(), &e.wire());
+          }
+        }
+      }
+    }
+  }
+  // ---- layers 2 and 3: an answer that is not the reduced (judged) dec.rs answer goes to the specification by itself
+  let mut jreqs: Vec<String> = vec![];
+  let mut jinfo: Vec<(usize, String, String)> = vec![];
+  for (i, t) in targets.iter().enumerate() {
+    let pad = t.exp - 6111;
+    let exact = clamp_exact_expected(t.neg, &t.c, t.exp);
+    rep.case(&format!("clamp {} {} {}", t.what, t.a.wire(), t.b.wire()), true);
+    rep.hit(&format!("op:clamp-{}", t.what));
+    rep.hit(&format!(
+      "clamp:{}",
+      if t.top {
+        match t.c.len() as i32 + pad {
+          35.. => "top: beyond the largest number",
+          34 if pad > 0 => "top: padded, exact fit (adjusted exponent 6144)",
+          _ if pad > 0 => "top: padded",
+          _ => "top: no padding needed",
+        }
+      } else if exact.is_some() {
+        if t.exp < -6176 {
+          "bottom: trailing zeros dropped"
+        } else {
+          "bottom: exact subnormal"
+        }
+      } else if t.c.len() as i32 + t.exp < -6176 {
+        "bottom: all digits rounded away"
+      } else {
+        "bottom: digits rounded away"
+      }
+    ));
+    let expected = match (&raws[i], raw_ok[i], &exact) {
+      (_, _, Some(e)) => Some(e.reduced().wire()),
+      (Some(r), true, None) => Some(r.reduced().wire()),
+      _ => None,
+    };
+    let overflow = matches!(exact, Some(DecV::Inf(_)));
+    let mut observed: Vec<(String, String)> = vec![];
+    let va = number_of(&t.a);
+    let vb = number_of(&t.b);
+    match t.what {
+      "literal" => {
+        let text = t.a.to_sci_input();
+        // from_str refuses what is not finite: the refusal stands for the infinity it saw
+        match guarded(|| FeelNumber::from_str(&text)) {
+          Ok(Ok(n)) => observed.push((format!("FeelNumber::from_str({})", text), observe(&n).map(|v| v.wire()).unwrap_or_else(|| format!("unparsed:{:?}", n)))),
+          Ok(Err(_)) => observed.push((format!("FeelNumber::from_str({})", text), DecV::Inf(t.neg).wire())),
+          Err(p) => rep.disagree(Kind::ImplVsSpec, "mul", "FeelNumber from_str panics", &text, &p, "a number"),
+        }
+        // the literal in FEEL text, written with all its zeros (FEEL has no exponent notation)
+        if !overflow {
+          let text = format!("{}{}", if t.neg { "-" } else { "" }, plain_literal(&D::new(false, &t.c, t.exp)));
+          let shown = format!("FEEL literal {}", t.a.to_sci_input());
+          match guarded(|| feel_eval(&[], &text)) {
+            Ok(Ok(v)) => {
+              // `-0.00…1` is the negation of a literal: when the literal rounds to zero the sign of that zero is
+              // the negation's business (0 − 0 = +0), not the conversion's; it is not looked at here
+              let got = match (t.neg, Sexp::parse(&value_show(&v)).as_ref().and_then(DecV::from_sexp)) {
+                (true, Some(DecV::Fin(d))) if d.is_zero() => D { neg: true, ..d }.wire(),
+                _ => value_show(&v),
+              };
+              observed.push((shown, got))
+            }
+            Ok(Err(e)) => observed.push((shown, format!("error:{}", e))),
+            Err(p) => rep.disagree(Kind::ImplVsSpec, "mul", "FEEL numeric literal panics", &shown, &p, "a number"),
+          }
+        }
+      }
+      _ => {
+        let op = op_of(t);
+        match impl_feelnumber(op, &t.a, Some(&t.b), 0) {
+          Ok(f) => observed.push((format!("FeelNumber {} {} {}", t.a.to_sci_input(), if op == "mul" { "*" } else { "/" }, t.b.to_sci_input()), f)),
+          Err(p) => rep.disagree(Kind::ImplVsSpec, op, &format!("FeelNumber {} panics", op), &inputs[i], &p, "a number"),
+        }
+        // FEEL: beyond the largest number the answer is the known non-finite number (judged by the `edge` class)
+        if let (false, Some(va), Some(vb)) = (overflow, va, vb) {
+          let expr = if op == "mul" { "a * b" } else { "a / b" };
+          let shown = format!("FEEL {} with a={} b={}", expr, t.a.to_sci_input(), t.b.to_sci_input());
+          match guarded(|| feel_eval(&[("a", Value::Number(va)), ("b", Value::Number(vb))], expr)) {
+            Ok(Ok(v)) => observed.push((shown, value_show(&v))),
+            Ok(Err(e)) => observed.push((shown, format!("error:{}", e))),
+            Err(p) => rep.disagree(Kind::ImplVsSpec, op, &format!("FEEL {} panics", op), &shown, &p, "a number"),
+          }
+        }
+      }
+    }
+    for (what, got) in observed {
+      if Some(&got) == expected.as_ref() {
+        continue;
+      }
+      if exact.is_some() || !(got.starts_with("(n ") || got.starts_with("(inf")) {
+        // written out: the exact value (or Infinity beyond the largest number) and nothing else
+        rep.disagree(Kind::ImplVsSpec, op_of(t), &sig(t), &what, &got, expected.as_deref().unwrap_or(spec_of(t)));
+      } else {
+        jreqs.push(format!("(c02 judgev {} {} {} {})", op_of(t), t.a.wire(), t.b.wire(), got));
+        jinfo.push((i, what, got));
+      }
+    }
+  }
+  let janswers = model.ask_batch(&jreqs);
+  for ((i, what, got), ans) in jinfo.iter().zip(janswers.iter()) {
+    let t = &targets[*i];
+    if ans.contains("false") {
+      rep.disagree(Kind::ImplVsSpec, op_of(t), &sig(t), what, got, spec_of(t));
+    } else if !ans.contains("true") {
+      rep.disagree(Kind::ImplVsModel, op_of(t), "driver-error", what, got, ans);
+    }
+  }
+  rep.extra.insert("clamp_targets".into(), json!(targets.len()));
+  rep.extra.insert("clamp_judged_separately".into(), json!(jinfo.len()));
 }
 
 const COHORT_SIGNATURE: &str = "the result depends on the representation of an operand (trailing zeros folded into the exponent or not, computed or written), not on its value only";
